@@ -97,7 +97,9 @@ PoolC01 == <<
   [W("ab") EXCEPT !.mkind = "removeparam", !.mval = "ab"],
   [W("ab.ba^") EXCEPT !.left = "dpipe", !.mkind = "csp", !.mval = "d1"],
   \* a rule that differs from another one only in the case of a case-sensitive payload is a different rule
-  [W("ab") EXCEPT !.mkind = "removeparam", !.mval = "AB"]
+  [W("ab") EXCEPT !.mkind = "removeparam", !.mval = "AB"],
+  \* the same rule under a second tag is a different rule
+  [W("abb") EXCEPT !.tag = "t1"]
 >>
 ReqsC01 == <<
   MkReq("https", "ab.ba", "/ab/ba/bab", "script", "ab.ba"),
@@ -199,7 +201,7 @@ PoolC05 == <<
   [W("/ab-") EXCEPT !.exc = TRUE], [W("/ab_") EXCEPT !.exc = TRUE, !.tag = "t1"], [W("/ab.") EXCEPT !.exc = TRUE],
   [W("/ab-") EXCEPT !.important = TRUE], [W("/ab_") EXCEPT !.important = TRUE, !.tag = "t1"],
   [W("/ab_") EXCEPT !.tag = "t1"], [W("/ab.") EXCEPT !.tag = "t2"],
-  W("/ab^"), W("/ab*ba"), [W("/ab-") EXCEPT !.right = TRUE], [W("https://ab.ba/ab-") EXCEPT !.left = "pipe"],
+  W("/ab^"), W("/ab*ba"), [W("/ab-") EXCEPT !.right = TRUE], [W("/ab") EXCEPT !.right = TRUE], [W("https://ab.ba/ab-") EXCEPT !.left = "pipe"],
   [W("/ab_") EXCEPT !.pos = {"image"}], [W("/ab.") EXCEPT !.party = "3p"],
   [W("/ab-") EXCEPT !.dom = {"ba.com"}], [W("ab.ba/ab_") EXCEPT !.left = "dpipe"],
   [W("/ab-") EXCEPT !.mkind = "redirect", !.mval = "r1"], [W("/ab_") EXCEPT !.mkind = "redirect-rule", !.mval = "r2"],
@@ -234,7 +236,7 @@ PoolC08 == <<
   [W("/ab-") EXCEPT !.party = "3p"], [W("/ab_") EXCEPT !.party = "1p"],
   [W("/ab-") EXCEPT !.dom = {"ba.com", "abb.com"}], [W("/ab_") EXCEPT !.ndom = {"ba.com"}],
   [W("/ab.") EXCEPT !.dom = {"ba.com"}, !.ndom = {"s.ba.com"}],
-  [W("/ab-") EXCEPT !.tag = "t1"], [W("/ab_") EXCEPT !.exc = TRUE, !.tag = "t2"], [W("/ab.") EXCEPT !.important = TRUE, !.tag = "t1"],
+  [W("/ab-") EXCEPT !.tag = "t1"], [W("/ab-") EXCEPT !.tag = "t2"], [W("/ab_") EXCEPT !.exc = TRUE, !.tag = "t2"], [W("/ab.") EXCEPT !.important = TRUE, !.tag = "t1"],
   [W("ab.ba^") EXCEPT !.left = "dpipe", !.mkind = "redirect", !.mval = "r1", !.prio = "10"],
   [W("/ab-") EXCEPT !.mkind = "redirect-rule", !.mval = "r2"],
   [W("ab.ba^") EXCEPT !.left = "dpipe", !.exc = TRUE, !.mkind = "redirect", !.mval = "r1"],
@@ -357,7 +359,7 @@ ResC13 == EffectiveStore(ResSeqC13)
 \* universe c14: removeparam
 RP(name) == [R0 EXCEPT !.left = "dpipe", !.body = B("ab.ba^"), !.mkind = "removeparam", !.mval = name]
 PoolC14 == <<
-  RP("a"), RP("b"), RP("ab"), RP("A"), [RP("a") EXCEPT !.pos = {"document"}], [RP("a") EXCEPT !.pos = {"image"}], [RP("b") EXCEPT !.neg = {"xmlhttprequest"}],
+  RP("a"), RP("b"), RP("ab"), RP("A"), [R0 EXCEPT !.body = B("*"), !.mkind = "removeparam", !.mval = "a"], [RP("a") EXCEPT !.pos = {"document"}], [RP("a") EXCEPT !.pos = {"image"}], [RP("b") EXCEPT !.neg = {"xmlhttprequest"}],
   [RP("a") EXCEPT !.important = TRUE], [R0 EXCEPT !.body = B("/p"), !.important = TRUE],
   [R0 EXCEPT !.body = B("/p")], [R0 EXCEPT !.body = B("a=1"), !.exc = TRUE], [RP("A") EXCEPT !.dom = {"x.com"}]
 >>
